@@ -691,7 +691,15 @@ def rule_arena_order(R):
                  "list that is not in arena-offset order makes compaction overwrite packets that are still to be resent")
 
 
+def rule_varint(R):
+    """the Remaining Length and every Property Length are announced with Varint::encoded_len and written by the varint
+    encoder: the two must agree for every value, or a packet announces a length it does not have (shared with C09)"""
+    from .c09 import rule_varint as _r
+    _r(R)
+
+
 def run(R):
+    R.rule("varint", rule_varint)
     R.rule("arena-order", rule_arena_order)
     R.rule("drain", rule_drain)
     R.rule("flags", rule_flags)
